@@ -227,7 +227,9 @@ func (m *Encoder) encodeValue(v reflect.Value, hint Type) error {
 
 	case reflect.String:
 		if hint == SymbolType {
-			return m.w.WriteSymbolFromString(v.String())
+			// The string is the symbol's text as it stands: "$5" is the symbol '$5',
+			// not a reference to symbol ID 5 (which WriteSymbolFromString would make it).
+			return m.w.WriteSymbol(NewSymbolTokenFromString(v.String()))
 		}
 		return m.w.WriteString(v.String())
 
